@@ -208,6 +208,9 @@ def r39(F):
     # who builds synthetic positions at all
     cg = callgraph.get(F)
     users = {n_ for n_, b in cg.call_sites(POS_NEW) if F.fn(n_).file.startswith("src/build/")}
+    from .. import flatten
+    # a private helper split off a listed function (or one of its closures) is still that function
+    users = {flatten.home(F, u, set(LISTED_SYNTHETIC)) for u in users}
     extra = sorted(u for u in users if not any(u == k or u.startswith(k + "::{closure#") for k in LISTED_SYNTHETIC))
     r.inst("Position::new:users", "src/build", not extra, "synthetic positions only in the %d listed places" % len(users) if not extra else "Position::new used in %s" % extra)
     return r
